@@ -8,6 +8,7 @@ import SparseSpace.Drive.Util
     lmax                                → <int>
     objects                             → container in order:  s1,s2|e1,e2|coarsening|needExtend;...
     leaves                              → leaves reachable from root_cell in traversal order, same format
+    nodes                               → every object of the tree (inner nodes too) in preorder from the initial objects, same format
     pop                                 → popArray
     cg <pos> <l1,l2,..>                 → c1,c2|<do_compute01> | assert    (updates the object's dictionary, as the code)
     computed <pos>                      → pass over the model's own scheme from the object's current dictionary (pure):
@@ -105,6 +106,10 @@ def step (s : Option EState) (line : String) : Option EState × String :=
   | ["leaves"] =>
     match s with
     | some st => (s, fmtAreas st.rootLeaves)
+    | none => (s, "bad-op")
+  | ["nodes"] =>
+    match s with
+    | some st => (s, fmtAreas st.forest.nodes)
     | none => (s, "bad-op")
   | ["pop"] =>
     match s with
